@@ -30,6 +30,10 @@ CLAIMED = {
          'PARTIAL. Proved for all histories: after any parse (success or failure at any point) the cursor is fresh and the next parse behaves as on a fresh instance; parse_arguments is restored whatever fails inside a => operand; the Pratt loop never runs out of fuel (no hang) for any token list and table; nested comments are skipped exactly (Dyck words) and an unterminated one is an error. Not provable here: that no foreign exception escapes from the ~250 unmodelled function implementations - that half is exploration (token mutants, random strings, full typed-operand cross product, histories), with 7 known findings identified by exception type and raising function.',
          'Trusted: Coq kernel; gen_c03.py AST facts; the abstraction of instance state to the fields a later parse reads; sub-process watchdog. No axioms.',
          'DESIGN.md §6 C03'),
+ 'C02': ('Coq proof (structural induction with a nested list invariant) that the positions assigned by both tree builders and the lazy namespace/attribute nodes strictly increase in document order, over increments re-translated from source each run (T-expr); correspondence on (kind, position, parent) of every node',
+         'For every input tree (any shape/size, attributes, text/tails, comments, PIs, namespaces mapping with or without xml, lxml in-scope nsmaps, document-level siblings) positions strictly increase along element -> namespace nodes -> attributes -> text/children/tails, parents precede children, positions are unique; the reserved gap is exactly element + namespace nodes + attributes. Order operators (is, <<, >>, union, intersect, except), string values and parent/children links are judged by the harness on real trees (not theorems); string-value order is a known finding pinned by an existing test.',
+         'Trusted: Coq kernel; py2coq/gen_c02 translator; the builders\' deque loops are modelled by structural recursion (validated by correspondence on exhaustive shapes <=4 nodes and random trees for both libraries). No axioms.',
+         'DESIGN.md §6 C02'),
 }
 
 NOT_YET = {}
